@@ -11,6 +11,12 @@
 (*               as connected                                                                    *)
 (*   RouteLive / RouteClosed   the same two demands on the routing decision of                   *)
 (*               SessionManager.SendCommandToClient (local delivery, or the node it forwards to) *)
+(*   StateLive / StateClosed   the same two demands on the OTHER answer the shared store gives to *)
+(*               "where is client x": the cloud-control client runtime state                      *)
+(*               (ClientStateRepository.GetState / GetClientNodeID, written by the handshake's     *)
+(*               ConnectClient, kept alive by the heartbeat's EnsureClientOnline, removed by        *)
+(*               DisconnectClientIfMatch when the connection is closed).  Its lifetime (90 s) is   *)
+(*               not scaled down by the driver, so these two clauses never meet an expiry.          *)
 (*                                                                                              *)
 (* Where the statement is silent the judge accepts: connections that missed a heartbeat tick,    *)
 (* clients whose latest connection is closed while an older one is still open, never-seen        *)
@@ -31,12 +37,27 @@
 (*   this must not matter; nothing is demanded of the overlapped lookup's own answer.             *)
 (*   FindClosed / RouteClosed details end with the cause of the latest close of a connection of   *)
 (*   x: peer (read loop ended) | cmd (disconnect command) | sweep (heartbeat timeout) | kick.     *)
+(*                                                                                              *)
+(* Store operations in flight (round 3).  A heartbeat, a close or a handshake may be driven with    *)
+(* its connstate operation running storage call by storage call: OpBegin (the session-layer part    *)
+(* is done, the store operation is parked in front of its first call), OpStep (one call released),   *)
+(* OpEnd (the event has returned); other events fall in between.  The statement speaks of           *)
+(* interleavings of EVENTS, so: a heartbeat counts from its OpBegin, a handshake is the client's      *)
+(* most recent one from its OpBegin (the response has been delivered by then), a connection is       *)
+(* closed at its OpEnd - and NOTHING is demanded for the client while the operation is in flight.    *)
+(* Afterwards the usual demands apply.  If events of the same client fell into the window, the       *)
+(* detail starts with "race(<kind>@<k>):" - kind hb|close|auth, k = number of storage calls the       *)
+(* operation had made when the client's latest handshake inside the window happened (if there was     *)
+(* none: when the first event of the client inside the window happened) - until the client's next    *)
+(* handshake outside a window.                                                                       *)
+(* Routing decisions carry the call site in `via`: cmd (SendCommandToClient, command_forwarder.go),   *)
+(* http (SendHTTPProxyRequest, http_proxy.go); for http the clause names are HttpRouteLive/Closed.    *)
 EXTENDS VLib
 
 Conns   == {"c1", "c2", "c3", "c4"}
 Clients == {"X", "Y"}
 VARIABLES be, life, clk,
-          cs,      \* connection -> [st |-> "new"|"open"|"dead"|"closed", node, auth]
+          cs,      \* connection -> [st |-> "new"|"open"|"dead"|"closing"|"closed", node, auth]
           last,    \* client -> connection of its most recent successful handshake | "-"
           lastAt,  \* client -> clock of that handshake
           late,    \* client -> an older connection of it was closed since that handshake
@@ -45,8 +66,14 @@ VARIABLES be, life, clk,
           lkd,     \* client -> a two-step lookup of it completed since its latest handshake
           re,      \* client -> kind of its latest handshake: "reauth" (on an already authenticated connection),
                    \*           "first" (first-connection handshake, identity allocated by the server), "-"
-          hb, alive
-vars == <<l, viol, be, life, clk, cs, last, lastAt, late, lost, cause, lkd, re, hb, alive>>
+          hb, alive,
+          opk, opc, opx,  \* the store operation in flight: kind "-"|"hb"|"close"|"auth", its connection, its client
+          opn,            \* storage calls it has made so far
+          opov, opauth, opat,  \* an event of opx fell into the window / a handshake of opx did / calls made by then
+          rc,      \* client -> "" | "race(<kind>@<k>)" (see above)
+          kk       \* client -> a connection of it was closed by KickOldControlConnection since its latest handshake
+opv  == <<opk, opc, opx, opn, opov, opauth, opat>>
+vars == <<l, viol, be, life, clk, cs, last, lastAt, late, lost, cause, lkd, re, hb, alive, opv, rc, kk>>
 
 Fresh == [st |-> "new", node |-> "-", auth |-> "-"]
 Reset == /\ be' = "?" /\ life' = 2 /\ clk' = 0
@@ -55,6 +82,8 @@ Reset == /\ be' = "?" /\ life' = 2 /\ clk' = 0
          /\ late' = [x \in Clients |-> FALSE] /\ lost' = [x \in Clients |-> FALSE]
          /\ cause' = [x \in Clients |-> "-"] /\ lkd' = [x \in Clients |-> FALSE] /\ re' = [x \in Clients |-> "-"]
          /\ hb' = [c \in Conns |-> FALSE] /\ alive' = [c \in Conns |-> FALSE]
+         /\ opk' = "-" /\ opc' = "-" /\ opx' = "-" /\ opn' = 0 /\ opov' = FALSE /\ opauth' = FALSE /\ opat' = 0
+         /\ rc' = [x \in Clients |-> ""] /\ kk' = [x \in Clients |-> FALSE]
 
 Init == /\ l = 1 /\ viol = {} /\ be = "?" /\ life = 2 /\ clk = 0
         /\ cs = [c \in Conns |-> Fresh]
@@ -62,15 +91,22 @@ Init == /\ l = 1 /\ viol = {} /\ be = "?" /\ life = 2 /\ clk = 0
         /\ late = [x \in Clients |-> FALSE] /\ lost = [x \in Clients |-> FALSE]
         /\ cause = [x \in Clients |-> "-"] /\ lkd = [x \in Clients |-> FALSE] /\ re = [x \in Clients |-> "-"]
         /\ hb = [c \in Conns |-> FALSE] /\ alive = [c \in Conns |-> FALSE]
+        /\ opk = "-" /\ opc = "-" /\ opx = "-" /\ opn = 0 /\ opov = FALSE /\ opauth = FALSE /\ opat = 0
+        /\ rc = [x \in Clients |-> ""] /\ kk = [x \in Clients |-> FALSE]
 
 Step == l' = l + 1
+\* an event of client x: does it fall into the window of the operation in flight
+Ov(x, isAuth) ==
+  IF opk # "-" /\ x = opx /\ (isAuth \/ ~opov)
+  THEN /\ opov' = TRUE /\ opat' = opn /\ opauth' = (opauth \/ isAuth) /\ UNCHANGED <<opk, opc, opx, opn>>
+  ELSE UNCHANGED opv
 
 TrCfg == /\ Is("Cfg") /\ be' = Ev.be /\ life' = Ev.ttl /\ Step
-         /\ UNCHANGED <<viol, clk, cs, last, lastAt, late, lost, cause, lkd, re, hb, alive>>
+         /\ UNCHANGED <<viol, clk, cs, last, lastAt, late, lost, cause, lkd, re, hb, alive, opv, rc, kk>>
 
 TrConnect == /\ Is("Connect") /\ Ev.c \in Conns
              /\ cs' = [cs EXCEPT ![Ev.c] = [st |-> "open", node |-> Ev.n, auth |-> "-"]]
-             /\ Step /\ UNCHANGED <<viol, be, life, clk, last, lastAt, late, lost, cause, lkd, re, hb, alive>>
+             /\ Step /\ UNCHANGED <<viol, be, life, clk, last, lastAt, late, lost, cause, lkd, re, hb, alive, opv, rc, kk>>
 
 \* a successful control handshake of client x on connection c at node n; "evicted" lists the
 \* connections whose transport the server closed while handling it (observed by the driver)
@@ -86,6 +122,7 @@ TrAuth == /\ Is("Auth") /\ Ev.c \in Conns /\ Ev.x \in Clients
           /\ alive' = [alive EXCEPT ![Ev.c] = TRUE]
           /\ Step /\ UNCHANGED <<viol, be, life, clk, cause>> /\ lkd' = [lkd EXCEPT ![Ev.x] = FALSE]
           /\ re' = [re EXCEPT ![Ev.x] = IF Has("w") /\ Ev.w = "new" THEN "first" ELSE IF cs[Ev.c].auth = Ev.x THEN "reauth" ELSE "-"]
+          /\ Ov(Ev.x, TRUE) /\ rc' = [rc EXCEPT ![Ev.x] = ""] /\ kk' = [kk EXCEPT ![Ev.x] = FALSE]
 
 \* the credential check of x passed on connection c but the response could not be written: the
 \* peer is gone.  Not a successful handshake: x's location does not move.  The connection is dead
@@ -93,30 +130,79 @@ TrAuth == /\ Is("Auth") /\ Ev.c \in Conns /\ Ev.x \in Clients
 TrAuthLost == /\ Is("AuthLost") /\ Ev.c \in Conns /\ Ev.x \in Clients
               /\ cs' = [cs EXCEPT ![Ev.c].st = "dead"]
               /\ lost' = [lost EXCEPT ![Ev.x] = TRUE]
-              /\ Step /\ UNCHANGED <<viol, be, life, clk, last, lastAt, late, cause, lkd, re, hb, alive>>
+              /\ Step /\ UNCHANGED <<viol, be, life, clk, last, lastAt, late, cause, lkd, re, hb, alive, rc, kk>>
+              /\ Ov(Ev.x, FALSE)
 
 TrHB == /\ Is("HB") /\ Ev.c \in Conns
         /\ hb' = [hb EXCEPT ![Ev.c] = TRUE]
-        /\ Step /\ UNCHANGED <<viol, be, life, clk, cs, last, lastAt, late, lost, cause, lkd, re, alive>>
+        /\ Step /\ UNCHANGED <<viol, be, life, clk, cs, last, lastAt, late, lost, cause, lkd, re, alive, rc, kk>>
+        /\ Ov(cs[Ev.c].auth, FALSE)
 
 \* a two-step lookup of x on node m: no demand on its own answer (it overlaps other events)
 TrLkBegin == /\ Is("LkBegin") /\ Step
-             /\ UNCHANGED <<viol, be, life, clk, cs, last, lastAt, late, lost, cause, lkd, re, hb, alive>>
+             /\ UNCHANGED <<viol, be, life, clk, cs, last, lastAt, late, lost, cause, lkd, re, hb, alive, opv, rc, kk>>
 TrLkEnd == /\ Is("LkEnd") /\ Step
            /\ lkd' = IF Ev.x \in Clients THEN [lkd EXCEPT ![Ev.x] = TRUE] ELSE lkd
-           /\ UNCHANGED <<viol, be, life, clk, cs, last, lastAt, late, lost, cause, re, hb, alive>>
+           /\ UNCHANGED <<viol, be, life, clk, cs, last, lastAt, late, lost, cause, re, hb, alive, opv, rc, kk>>
 
 TrClose == /\ Is("Close") /\ Ev.c \in Conns
            /\ cs' = [cs EXCEPT ![Ev.c].st = "closed"]
            /\ LET x == cs[Ev.c].auth IN
               /\ late' = IF x \in Clients /\ last[x] # Ev.c THEN [late EXCEPT ![x] = TRUE] ELSE late
               /\ cause' = IF x \in Clients THEN [cause EXCEPT ![x] = Ev.why] ELSE cause
-           /\ Step /\ UNCHANGED <<viol, be, life, clk, last, lastAt, lost, lkd, re, hb, alive>>
+              /\ kk' = IF x \in Clients /\ Ev.why = "kick" THEN [kk EXCEPT ![x] = TRUE] ELSE kk
+           /\ Step /\ UNCHANGED <<viol, be, life, clk, last, lastAt, lost, lkd, re, hb, alive, rc>>
+           /\ Ov(cs[Ev.c].auth, FALSE)
+
+\* ---- the same events with their store operation in flight -----------------------------------
+TrOpBegin ==
+  /\ Is("OpBegin") /\ Ev.c \in Conns /\ opk = "-"
+  /\ opk' = Ev.k /\ opc' = Ev.c /\ opn' = 0 /\ opov' = FALSE /\ opauth' = FALSE /\ opat' = 0
+  /\ CASE Ev.k = "hb" ->
+            /\ opx' = cs[Ev.c].auth
+            /\ hb' = [hb EXCEPT ![Ev.c] = TRUE]
+            /\ UNCHANGED <<cs, last, lastAt, late, lost, lkd, re, alive, rc, kk>>
+       [] Ev.k = "close" ->
+            /\ opx' = cs[Ev.c].auth
+            /\ cs' = [cs EXCEPT ![Ev.c].st = "closing"]
+            /\ UNCHANGED <<last, lastAt, late, lost, lkd, re, hb, alive, rc, kk>>
+       [] OTHER ->           \* "auth": the response has been delivered - x's most recent successful handshake
+            /\ Ev.x \in Clients /\ opx' = Ev.x
+            /\ LET ev == {Ev.evicted[i] : i \in DOMAIN Ev.evicted} IN       \* transports the server closed while handling it
+               cs' = [c \in Conns |-> IF c = Ev.c THEN [st |-> "open", node |-> Ev.n, auth |-> Ev.x]
+                                      ELSE IF c \in ev THEN [cs[c] EXCEPT !.st = "closed"] ELSE cs[c]]
+            /\ last' = [last EXCEPT ![Ev.x] = Ev.c]
+            /\ lastAt' = [lastAt EXCEPT ![Ev.x] = clk]
+            /\ late' = [late EXCEPT ![Ev.x] = FALSE]
+            /\ lost' = [lost EXCEPT ![Ev.x] = FALSE]
+            /\ hb' = [hb EXCEPT ![Ev.c] = TRUE]
+            /\ alive' = [alive EXCEPT ![Ev.c] = TRUE]
+            /\ lkd' = [lkd EXCEPT ![Ev.x] = FALSE]
+            /\ re' = [re EXCEPT ![Ev.x] = IF cs[Ev.c].auth = Ev.x THEN "reauth" ELSE "-"]
+            /\ rc' = [rc EXCEPT ![Ev.x] = ""] /\ kk' = [kk EXCEPT ![Ev.x] = FALSE]
+  /\ Step /\ UNCHANGED <<viol, be, life, clk, cause>>
+
+TrOpStep == /\ Is("OpStep") /\ opn' = opn + 1 /\ Step
+            /\ UNCHANGED <<viol, be, life, clk, cs, last, lastAt, late, lost, cause, lkd, re, hb, alive, opk, opc, opx, opov, opauth, opat, rc, kk>>
+
+\* the event has returned
+TrOpEnd ==
+  /\ Is("OpEnd") /\ opk # "-"
+  /\ LET x == opx
+         shut == IF opk = "close" THEN {opc} ELSE {} IN
+     /\ cs' = [c \in Conns |-> IF c \in shut THEN [cs[c] EXCEPT !.st = "closed"] ELSE cs[c]]
+     /\ late' = IF opk = "close" /\ x \in Clients /\ last[x] # opc THEN [late EXCEPT ![x] = TRUE] ELSE late
+     /\ cause' = IF opk = "close" /\ x \in Clients THEN [cause EXCEPT ![x] = Ev.why] ELSE cause
+     /\ kk' = IF opk = "close" /\ x \in Clients /\ Ev.why = "kick" THEN [kk EXCEPT ![x] = TRUE] ELSE kk
+     /\ rc' = IF opov /\ x \in Clients
+              THEN [rc EXCEPT ![x] = "race(" \o opk \o "@" \o ToString(opat) \o ")"] ELSE rc
+  /\ opk' = "-" /\ opc' = "-" /\ opx' = "-" /\ opn' = 0 /\ opov' = FALSE /\ opauth' = FALSE /\ opat' = 0
+  /\ Step /\ UNCHANGED <<viol, be, life, clk, last, lastAt, lost, lkd, re, hb, alive>>
 
 TrTick == /\ Is("Tick") /\ clk' = clk + 1
           /\ alive' = [c \in Conns |-> alive[c] /\ (cs[c].st # "open" \/ hb[c])]
           /\ hb' = [c \in Conns |-> FALSE]
-          /\ Step /\ UNCHANGED <<viol, be, life, cs, last, lastAt, late, lost, cause, lkd, re>>
+          /\ Step /\ UNCHANGED <<viol, be, life, cs, last, lastAt, late, lost, cause, lkd, re, opv, rc, kk>>
 
 \* ---- what the statement demands right now ------------------------------------------------
 Connected(x) == last[x] # "-" /\ cs[last[x]].st = "open" /\ alive[last[x]]
@@ -127,38 +213,63 @@ Class(x) == LET t == clk - lastAt[x] >= life
                 b3 == IF lkd[x] THEN "lookup+" \o b2 ELSE b2
             IN IF re[x] = "-" THEN b3 ELSE re[x] \o "+" \o b3
 
+\* nothing is demanded for a client while a store operation of one of its connections is in flight
+InFlightOf(x) == opk # "-" /\ opx = x
+D(x, rest) == IF rc[x] = "" THEN be \o ":" \o rest ELSE rc[x] \o ":" \o be \o ":" \o rest
+
 FindBad(f) ==
-  IF f.x \notin Clients THEN {}
+  IF f.x \notin Clients \/ InFlightOf(f.x) THEN {}
   ELSE IF Connected(f.x)
        THEN IF f.r = "found" /\ f.node = cs[last[f.x]].node /\ f.conn = last[f.x] THEN {}
-            ELSE {V("FindLive", be \o ":" \o Class(f.x) \o ":" \o (IF f.r = "found" THEN "wrong" ELSE f.r))}
-  ELSE IF AllClosed(f.x) /\ f.r = "found" THEN {V("FindClosed", be \o ":" \o Class(f.x) \o ":stale:" \o cause[f.x])}
+            ELSE {V("FindLive", D(f.x, Class(f.x) \o ":" \o (IF f.r = "found" THEN "wrong" ELSE f.r)))}
+  ELSE IF AllClosed(f.x) /\ f.r = "found" THEN {V("FindClosed", D(f.x, Class(f.x) \o ":stale:" \o cause[f.x]))}
   ELSE {}
 
-\* routing decision of SendCommandToClient(x) issued on node f.from:
+\* routing decision for client x taken on node f.from by call site f.via ("cmd" SendCommandToClient,
+\* "http" SendHTTPProxyRequest):
 \*   "local" (delivered to a connection of this node), "forward" to f.node, "none" (refused)
 \* The demand concerns nodes that ask the shared store: a node that still holds an open
 \* (not yet cleaned up) older connection of x answers from its own registry - no demand there.
-StaleLocal(f) == \E c \in Conns : cs[c].auth = f.x /\ cs[c].st \in {"open", "dead"} /\ cs[c].node = f.from /\ c # last[f.x]
+StaleLocal(f) == \E c \in Conns : cs[c].auth = f.x /\ cs[c].st \in {"open", "dead", "closing"} /\ cs[c].node = f.from /\ c # last[f.x]
 RouteBad(f) ==
-  IF f.x \notin Clients \/ StaleLocal(f) THEN {}
+  LET pre == IF "via" \in DOMAIN f /\ f.via = "http" THEN "HttpRoute" ELSE "Route" IN
+  IF f.x \notin Clients \/ StaleLocal(f) \/ InFlightOf(f.x) THEN {}
   ELSE IF Connected(f.x)
        THEN LET n == cs[last[f.x]].node
                 want == IF n = f.from THEN "local" ELSE "forward"
                 good == f.r = want /\ (want = "forward" => f.node = n)
             IN IF good THEN {}
-               ELSE {V("RouteLive", be \o ":" \o Class(f.x) \o ":" \o want \o "->" \o f.r)}
-  ELSE IF AllClosed(f.x) /\ f.r # "none" THEN {V("RouteClosed", be \o ":" \o Class(f.x) \o ":" \o f.r \o ":" \o cause[f.x])}
+               ELSE {V(pre \o "Live", D(f.x, Class(f.x) \o ":" \o want \o "->" \o f.r))}
+  ELSE IF AllClosed(f.x) /\ f.r # "none" THEN {V(pre \o "Closed", D(f.x, Class(f.x) \o ":" \o f.r \o ":" \o cause[f.x]))}
+  ELSE {}
+
+\* the client runtime state as node f.from reads it: r = "found" (online; node / conn as stored; svc = what
+\* the service-level GetClientNodeID says) | "none" (no state = offline) | "error"
+\* detail = <group>:<the detail of the other clauses>; group = "lost" (an undeliverable handshake of x
+\* happened since its latest successful one), else for StateClosed "kick" (a connection of x was closed
+\* by KickOldControlConnection since x's latest successful handshake), else "plain"
+StateBad(f) ==
+  IF f.x \notin Clients \/ InFlightOf(f.x) THEN {}
+  ELSE IF Connected(f.x)
+       THEN LET n == cs[last[f.x]].node IN
+            IF f.r = "found" /\ f.node = n /\ f.conn = last[f.x] /\ f.svc = n THEN {}
+            ELSE {V("StateLive", (IF lost[f.x] THEN "lost:" ELSE "plain:")
+                                 \o D(f.x, Class(f.x) \o ":" \o (IF f.r = "found" THEN "wrong" ELSE f.r)))}
+  ELSE IF AllClosed(f.x) /\ (f.r = "found" \/ f.svc # "-")
+       THEN {V("StateClosed", (IF lost[f.x] THEN "lost:" ELSE IF kk[f.x] THEN "kick:" ELSE "plain:")
+                              \o D(f.x, Class(f.x) \o ":stale:" \o cause[f.x]))}
   ELSE {}
 
 TrObs == /\ Is("Obs")
          /\ viol' = viol \cup UNION {FindBad(Ev.finds[i]) : i \in DOMAIN Ev.finds}
                          \cup UNION {RouteBad(Ev.routes[i]) : i \in DOMAIN Ev.routes}
-         /\ Step /\ UNCHANGED <<be, life, clk, cs, last, lastAt, late, lost, cause, lkd, re, hb, alive>>
+                         \cup (IF Has("states") THEN UNION {StateBad(Ev.states[i]) : i \in DOMAIN Ev.states} ELSE {})
+         /\ Step /\ UNCHANGED <<be, life, clk, cs, last, lastAt, late, lost, cause, lkd, re, hb, alive, opv, rc, kk>>
 
 TrEnd == /\ Is("End") /\ EmitVerdict
          /\ l' = l + 1 /\ viol' = {} /\ Reset
 
-Next == TrCfg \/ TrConnect \/ TrAuth \/ TrAuthLost \/ TrLkBegin \/ TrLkEnd \/ TrHB \/ TrClose \/ TrTick \/ TrObs \/ TrEnd
+Next == TrCfg \/ TrConnect \/ TrAuth \/ TrAuthLost \/ TrLkBegin \/ TrLkEnd \/ TrHB \/ TrClose \/ TrOpBegin \/ TrOpStep \/ TrOpEnd
+        \/ TrTick \/ TrObs \/ TrEnd
 Spec == Init /\ [][Next]_vars
 =============================================================================
